@@ -1023,12 +1023,42 @@ def origins_of_place(f, l, proj, extra_pass=(), _seen=None):
                 res.append(Origin("other", k, rest, bb, rv))
         elif kind == "call":
             c = Call(f, bb, payload)
-            if (c.is_to(*PASS_THROUGH_CALLS) or c.is_to(*extra_pass)) and c.args:
+            if c.path == TRY_BRANCH and c.args:
+                # `x?`: ((branch(x) as Continue).0) is the Ok/Some payload of x
+                rest = fields[1:] if fields and fields[0] == "0" else fields
+                for o in origins(f, c.args[0], extra_pass, 0, _seen):
+                    res.append(Origin(o.kind, o.what, o.path + tuple(rest), o.bb, o.extra))
+            elif (c.is_to(*PASS_THROUGH_CALLS) or c.is_to(*extra_pass)) and c.args:
                 for o in origins(f, c.args[0], extra_pass, 0, _seen):
                     res.append(Origin(o.kind, o.what, o.path + tuple(fields), o.bb, o.extra))
             else:
                 res.append(Origin("call", c.res, fields, bb, c))
     return res
+
+
+def origin_callees(f, op, depth=5, _seen=None):
+    """Callee names (stripped) reachable by following origins of `op` and, transitively, the arguments of the
+    calls found (bounded depth): what computations does this value derive from?"""
+    if _seen is None:
+        _seen = set()
+    out = set()
+    if depth < 0:
+        return out
+    for o in origins(f, op):
+        if o.kind == "call":
+            c = o.extra
+            key = (c.bb,)
+            out.add(c.sres)
+            if key in _seen:
+                continue
+            _seen.add(key)
+            for a in c.args:
+                out |= origin_callees(f, a, depth - 1, _seen)
+        elif o.kind in ("bin", "un", "other") and isinstance(o.extra, dict):
+            for k in ("a", "b", "op"):
+                if k in o.extra and isinstance(o.extra[k], dict):
+                    out |= origin_callees(f, o.extra[k], depth - 1, _seen)
+    return out
 
 
 def closure_capture_operand(prog, closure_fn, upvar_idx):
